@@ -1,12 +1,13 @@
 import Mouette.Model.Proto
 import Mouette.Model.Surface
 import Mouette.Model.Border
+import Mouette.Model.BorderSpec
 import Mouette.Model.Features
 import Mouette.Generated.C15Thresholds
 /-
 Protocol front-end for C15.
   `b <nv> <nf> (<len> v…)* <nstarts> s…`
-      reply  `<cycle from s1> | … || <all cycles, canonical> || <boundary polyline, canonical>`
+      reply  `wf:<0|1> ## <cycle from s1> | … || <all cycles, canonical> || <boundary polyline, canonical>`
       a cycle is `<k v…> ; <k e…>`; canonical cycles are rotated (direction kept) so that the smallest
       vertex comes first and sorted; the polyline is `<#vertices> ; <k a b …>` = its edges mapped back
       to surface vertex pairs, sorted.
@@ -48,7 +49,8 @@ def border (nv : Nat) (faces : Faces) (starts : List Nat) : String :=
       let inv (i : Nat) : Nat := ((m.find? fun (e : Nat × Nat) => e.2 == i).map (fun (e : Nat × Nat) => e.1)).getD 0
       let back := isort pairLe (pe.map fun (ab : Nat × Nat) => key2 (inv ab.1) (inv ab.2))
       s!"{n} ; {fmtNats (back.flatMap fun (ab : Nat × Nat) => [ab.1, ab.2])}"
-  s!"{" | ".intercalate per} || {allStr} || {bnd}"
+  -- `wf:` = the decidable hypotheses of `border_cycle_correct` (Props/C15Border) hold on this input
+  s!"wf:{fmtBool (borderWfB faces nv)} ## {" | ".intercalate per} || {allStr} || {bnd}"
 
 def optRat : P (Option Rat) := do
   let t ← tok
